@@ -1,4 +1,5 @@
 import SslModel.Model.TyText
+import SslModel.Lemmas.TyLex
 import SslModel.Lemmas.TyTrans
 /-!
 # C15 — types survive printing and re-parsing
@@ -729,5 +730,426 @@ example : ∃ f, parseTy f (toks sampleTy) = some (sampleTy, []) := by
     (by simp [sampleTy, printable, printableL, printableF, restricted]) []
     (by intro r h; cases h) (by intro r h; cases h) (6 * size sampleTy + 1) (Nat.le_refl _)
   simpa using this
+
+
+/-! ## the character level: the printed TEXT is read back as the type -/
+open Ssl.TyLex
+
+
+theorem adjOk_punct_cons (p : Tok) (hp : isWordTok p = false) (ts : List Tok) : adjOk (p :: ts) = adjOk ts := by
+  cases ts with
+  | nil => simp [adjOk]
+  | cons t ts => cases p <;> simp [isWordTok] at hp <;> simp [adjOk]
+
+theorem adjOk_mut_cons (ts : List Tok) : adjOk (.word "mut" :: ts) = adjOk ts := by
+  cases ts with
+  | nil => simp [adjOk]
+  | cons t ts => cases t <;> simp [adjOk]
+
+theorem adjOk_word_punct (k : String) (p : Tok) (hp : isWordTok p = false) (ts : List Tok) :
+    adjOk (.word k :: p :: ts) = adjOk ts := by
+  have : adjOk (.word k :: p :: ts) = adjOk (p :: ts) := by
+    cases p <;> simp [isWordTok] at hp <;> simp [adjOk]
+  rw [this, adjOk_punct_cons p hp]
+
+theorem adjOk_append_punct (a b : List Tok) (p : Tok) (hp : isWordTok p = false) :
+    adjOk (a ++ p :: b) = (adjOk a && adjOk b) := by
+  induction a with
+  | nil => simp [adjOk, adjOk_punct_cons p hp]
+  | cons x a ih =>
+    cases a with
+    | nil =>
+      cases x with
+      | word w => simp [adjOk_word_punct w p hp, adjOk]
+      | _ => simp [adjOk_punct_cons _ _ (p :: b), adjOk_punct_cons p hp, isWordTok, adjOk]
+    | cons y a' =>
+      cases x with
+      | word w =>
+        cases y with
+        | word v =>
+          simp only [List.cons_append, adjOk] at ih ⊢
+          rw [ih]; simp [Bool.and_assoc]
+        | _ =>
+          simp only [List.cons_append] at ih ⊢
+          rw [adjOk_word_punct w _ (by simp [isWordTok]), adjOk_word_punct w _ (by simp [isWordTok])]
+          rw [adjOk_punct_cons _ (by simp [isWordTok])] at ih
+          rw [adjOk_punct_cons _ (by simp [isWordTok])] at ih
+          exact ih
+      | lp | rp | lb | rb | lc | rc | comma | bar | colon | bang | arrow =>
+        simp only [List.cons_append] at ih ⊢
+        rw [adjOk_punct_cons _ (by simp [isWordTok]) (y :: (a' ++ p :: b)),
+            adjOk_punct_cons _ (by simp [isWordTok]) (y :: a')]
+        exact ih
+
+theorem adjOk_append_punct_end (a : List Tok) (p : Tok) (hp : isWordTok p = false) :
+    adjOk (a ++ [p]) = adjOk a := by
+  rw [adjOk_append_punct a [] p hp]; simp [adjOk]
+
+theorem adjOk_sep : ∀ es : List Ty, (∀ e ∈ es, adjOk (toks e) = true) → adjOk (toksSep es) = true
+  | [], _ => by simp [toksSep, adjOk]
+  | [e], h => by simpa [toksSep] using h e (by simp)
+  | e :: e2 :: es, h => by
+    have : toksSep (e :: e2 :: es) = toks e ++ .comma :: toksSep (e2 :: es) := by simp [toksSep]
+    rw [this, adjOk_append_punct _ _ _ (by simp [isWordTok]), h e (by simp),
+      adjOk_sep (e2 :: es) (fun x hx => h x (by simp [hx]))]
+    rfl
+
+theorem adjOk_bar : ∀ es : List Ty, (∀ e ∈ es, adjOk (toks e) = true) → adjOk (toksBar es) = true
+  | [], _ => by simp [toksBar, adjOk]
+  | [e], h => by simpa [toksBar] using h e (by simp)
+  | e :: e2 :: es, h => by
+    have : toksBar (e :: e2 :: es) = toks e ++ .bar :: toksBar (e2 :: es) := by simp [toksBar]
+    rw [this, adjOk_append_punct _ _ _ (by simp [isWordTok]), h e (by simp),
+      adjOk_bar (e2 :: es) (fun x hx => h x (by simp [hx]))]
+    rfl
+
+theorem adjOk_fields : ∀ fs : List (String × Ty), (∀ p ∈ fs, adjOk (toks p.2) = true) → adjOk (toksFields fs) = true
+  | [], _ => by simp [toksFields, adjOk]
+  | [(k, t)], h => by
+    have : toksFields [(k, t)] = .word k :: .colon :: toks t := by simp [toksFields]
+    rw [this, adjOk_word_punct k _ (by simp [isWordTok])]
+    exact h (k, t) (by simp)
+  | (k, t) :: p2 :: fs, h => by
+    have : toksFields ((k, t) :: p2 :: fs) = .word k :: .colon :: (toks t ++ .comma :: toksFields (p2 :: fs)) := by
+      simp [toksFields]
+    rw [this, adjOk_word_punct k _ (by simp [isWordTok]), adjOk_append_punct _ _ _ (by simp [isWordTok]),
+      h (k, t) (by simp), adjOk_fields (p2 :: fs) (fun x hx => h x (by simp [hx]))]
+    rfl
+
+theorem adjOk_ret (r : Ty) (h : adjOk (toks r) = true) : adjOk (retToks r) = true := by
+  unfold retToks
+  split
+  · simp only [List.singleton_append, List.cons_append, List.nil_append]
+    rw [adjOk_punct_cons _ (by simp [isWordTok]), adjOk_append_punct_end _ _ (by simp [isWordTok])]
+    exact h
+  · exact h
+
+/-- in the printed token list two words never meet, except after `mut` (which is printed with a space) -/
+theorem adjOk_toks_aux : ∀ n : Nat, ∀ t : Ty, size t ≤ n → adjOk (toks t) = true := by
+  intro n
+  induction n with
+  | zero => intro t h; have := size_pos t; omega
+  | succ n ih =>
+    intro t hs
+    cases t with
+    | fn ps r =>
+      simp only [size] at hs
+      rw [toks_fn]
+      simp only [List.singleton_append, List.cons_append, List.nil_append, List.append_assoc]
+      rw [adjOk_punct_cons _ (by simp [isWordTok]), adjOk_append_punct _ _ _ (by simp [isWordTok]),
+        adjOk_punct_cons _ (by simp [isWordTok]),
+        adjOk_sep ps (fun x hx => ih x (by have := size_lt_sizeL hx; omega)),
+        adjOk_ret r (ih r (by omega))]
+      rfl
+    | arr e =>
+      simp only [size] at hs
+      simp only [toks]
+      split
+      · simp [adjOk]
+      · simp only [List.singleton_append, List.cons_append, List.nil_append]
+        rw [adjOk_punct_cons _ (by simp [isWordTok]), adjOk_append_punct_end _ _ (by simp [isWordTok])]
+        exact ih e (by omega)
+    | tup es =>
+      simp only [size] at hs
+      simp only [toks, List.singleton_append, List.cons_append, List.nil_append]
+      rw [adjOk_punct_cons _ (by simp [isWordTok]), adjOk_append_punct_end _ _ (by simp [isWordTok])]
+      exact adjOk_sep es (fun x hx => ih x (by have := size_lt_sizeL hx; omega))
+    | multi ms =>
+      simp only [size] at hs
+      simp only [toks]
+      exact adjOk_bar ms (fun x hx => ih x (by have := size_lt_sizeL hx; omega))
+    | cell e =>
+      simp only [size] at hs
+      rw [toks_cell]
+      simp only [List.singleton_append]
+      rw [adjOk_mut_cons]
+      exact adjOk_ret e (ih e (by omega))
+    | struct fs =>
+      simp only [size] at hs
+      simp only [toks, List.singleton_append, List.cons_append, List.nil_append]
+      rw [adjOk_word_punct _ _ (by simp [isWordTok]), adjOk_append_punct_end _ _ (by simp [isWordTok])]
+      exact adjOk_fields fs (fun p hp => ih p.2 (by have := size_lt_sizeF (k := p.1) (x := p.2) (fs := fs) hp; omega))
+    | _ => simp [toks, adjOk]
+
+theorem adjOk_toks (t : Ty) : adjOk (toks t) = true := adjOk_toks_aux _ t (Nat.le_refl _)
+
+
+
+mutual
+/-- struct keys are words (non-empty, letters / digits / `_`) - what the grammar's `ident` admits -/
+def identKeys : Ty → Bool
+  | .fn ps r => identKeysL ps && identKeys r
+  | .arr e => identKeys e
+  | .tup es => identKeysL es
+  | .multi ms => identKeysL ms
+  | .cell e => identKeys e
+  | .struct fs => identKeysF fs
+  | _ => true
+def identKeysL : List Ty → Bool
+  | [] => true
+  | t :: ts => identKeys t && identKeysL ts
+def identKeysF : List (String × Ty) → Bool
+  | [] => true
+  | (k, t) :: fs => wordOk k && identKeys t && identKeysF fs
+end
+
+theorem wordsOk_append (a b : List Tok) : wordsOk (a ++ b) = (wordsOk a && wordsOk b) := by
+  simp [wordsOk, List.all_append]
+
+theorem wordsOk_cons (t : Tok) (b : List Tok) : wordsOk (t :: b) = (wordsOk [t] && wordsOk b) := by
+  simp [wordsOk]
+
+theorem identKeysL_mem {ts : List Ty} (h : identKeysL ts = true) {x : Ty} (hx : x ∈ ts) : identKeys x = true := by
+  induction ts with
+  | nil => cases hx
+  | cons t ts ih =>
+    simp only [identKeysL, Bool.and_eq_true] at h
+    cases hx with
+    | head => exact h.1
+    | tail _ h' => exact ih h.2 h'
+
+theorem wordsOk_sep : ∀ es : List Ty, (∀ e ∈ es, wordsOk (toks e) = true) → wordsOk (toksSep es) = true
+  | [], _ => by simp [toksSep, wordsOk]
+  | [e], h => by simpa [toksSep] using h e (by simp)
+  | e :: e2 :: es, h => by
+    have : toksSep (e :: e2 :: es) = toks e ++ .comma :: toksSep (e2 :: es) := by simp [toksSep]
+    rw [this, wordsOk_append, wordsOk_cons, h e (by simp), wordsOk_sep (e2 :: es) (fun x hx => h x (by simp [hx]))]
+    simp [wordsOk]
+
+theorem wordsOk_bar : ∀ es : List Ty, (∀ e ∈ es, wordsOk (toks e) = true) → wordsOk (toksBar es) = true
+  | [], _ => by simp [toksBar, wordsOk]
+  | [e], h => by simpa [toksBar] using h e (by simp)
+  | e :: e2 :: es, h => by
+    have : toksBar (e :: e2 :: es) = toks e ++ .bar :: toksBar (e2 :: es) := by simp [toksBar]
+    rw [this, wordsOk_append, wordsOk_cons, h e (by simp), wordsOk_bar (e2 :: es) (fun x hx => h x (by simp [hx]))]
+    simp [wordsOk]
+
+theorem wordsOk_fields : ∀ fs : List (String × Ty), (∀ p ∈ fs, wordOk p.1 = true ∧ wordsOk (toks p.2) = true) →
+    wordsOk (toksFields fs) = true
+  | [], _ => by simp [toksFields, wordsOk]
+  | [(k, t)], h => by
+    have : toksFields [(k, t)] = .word k :: .colon :: toks t := by simp [toksFields]
+    have hk := h (k, t) (by simp)
+    rw [this, wordsOk_cons, wordsOk_cons .colon, hk.2]
+    simp [wordsOk, hk.1]
+  | (k, t) :: p2 :: fs, h => by
+    have : toksFields ((k, t) :: p2 :: fs) = .word k :: .colon :: (toks t ++ .comma :: toksFields (p2 :: fs)) := by
+      simp [toksFields]
+    have hk := h (k, t) (by simp)
+    rw [this, wordsOk_cons, wordsOk_cons .colon, wordsOk_append, wordsOk_cons .comma, hk.2,
+      wordsOk_fields (p2 :: fs) (fun x hx => h x (by simp [hx]))]
+    simp [wordsOk, hk.1]
+
+theorem wordsOk_ret (r : Ty) (h : wordsOk (toks r) = true) : wordsOk (retToks r) = true := by
+  unfold retToks
+  split
+  · simp only [List.singleton_append, List.cons_append, List.nil_append]
+    rw [wordsOk_cons, wordsOk_append, h]; simp [wordsOk]
+  · exact h
+
+theorem identKeysF_mem {fs : List (String × Ty)} (h : identKeysF fs = true) {p : String × Ty} (hp : p ∈ fs) :
+    wordOk p.1 = true ∧ identKeys p.2 = true := by
+  induction fs with
+  | nil => cases hp
+  | cons q fs ih =>
+    obtain ⟨k, t⟩ := q
+    simp only [identKeysF, Bool.and_eq_true] at h
+    cases hp with
+    | head => exact ⟨h.1.1, h.1.2⟩
+    | tail _ h' => exact ih h.2 h'
+
+theorem wordOk_kw : wordOk "bool" = true ∧ wordOk "int" = true ∧ wordOk "float" = true ∧ wordOk "string" = true ∧
+    wordOk "any" = true ∧ wordOk "mut" = true ∧ wordOk "struct" = true := by decide
+
+/-- every word among the printed tokens is a non-empty run of word characters -/
+theorem wordsOk_toks_aux : ∀ n : Nat, ∀ t : Ty, size t ≤ n → identKeys t = true → wordsOk (toks t) = true := by
+  intro n
+  induction n with
+  | zero => intro t h; have := size_pos t; omega
+  | succ n ih =>
+    intro t hs hk
+    obtain ⟨k1, k2, k3, k4, k5, k6, k7⟩ := wordOk_kw
+    cases t with
+    | fn ps r =>
+      simp only [size] at hs
+      simp only [identKeys, Bool.and_eq_true] at hk
+      rw [toks_fn]
+      simp only [List.singleton_append, List.cons_append, List.nil_append, List.append_assoc]
+      rw [wordsOk_cons, wordsOk_append, wordsOk_cons .rp, wordsOk_cons .arrow,
+        wordsOk_sep ps (fun x hx => ih x (by have := size_lt_sizeL hx; omega) (identKeysL_mem hk.1 hx)),
+        wordsOk_ret r (ih r (by omega) hk.2)]
+      simp [wordsOk]
+    | arr e =>
+      simp only [size] at hs
+      simp only [identKeys] at hk
+      simp only [toks]
+      split
+      · simp [wordsOk]
+      · simp only [List.singleton_append, List.cons_append, List.nil_append]
+        rw [wordsOk_cons, wordsOk_append, ih e (by omega) hk]; simp [wordsOk]
+    | tup es =>
+      simp only [size] at hs
+      simp only [identKeys] at hk
+      simp only [toks, List.singleton_append, List.cons_append, List.nil_append]
+      rw [wordsOk_cons, wordsOk_append,
+        wordsOk_sep es (fun x hx => ih x (by have := size_lt_sizeL hx; omega) (identKeysL_mem hk hx))]
+      simp [wordsOk]
+    | multi ms =>
+      simp only [size] at hs
+      simp only [identKeys] at hk
+      simp only [toks]
+      exact wordsOk_bar ms (fun x hx => ih x (by have := size_lt_sizeL hx; omega) (identKeysL_mem hk hx))
+    | cell e =>
+      simp only [size] at hs
+      simp only [identKeys] at hk
+      rw [toks_cell]
+      simp only [List.singleton_append]
+      rw [wordsOk_cons, wordsOk_ret e (ih e (by omega) hk)]
+      simp [wordsOk, k6]
+    | struct fs =>
+      simp only [size] at hs
+      simp only [identKeys] at hk
+      simp only [toks, List.singleton_append, List.cons_append, List.nil_append]
+      rw [wordsOk_cons, wordsOk_cons .lc, wordsOk_append,
+        wordsOk_fields fs (fun p hp => ⟨(identKeysF_mem hk hp).1,
+          ih p.2 (by have := size_lt_sizeF (k := p.1) (x := p.2) (fs := fs) hp; omega) (identKeysF_mem hk hp).2⟩)]
+      simp [wordsOk, k7]
+    | bool => simp [toks, wordsOk, k1]
+    | int => simp [toks, wordsOk, k2]
+    | float => simp [toks, wordsOk, k3]
+    | str => simp [toks, wordsOk, k4]
+    | any => simp [toks, wordsOk, k5]
+    | void => simp [toks, wordsOk]
+    | never => simp [toks, wordsOk]
+
+theorem wordsOk_toks (t : Ty) (hk : identKeys t = true) : wordsOk (toks t) = true :=
+  wordsOk_toks_aux _ t (Nat.le_refl _) hk
+
+
+
+theorem len_sep : ∀ es : List Ty, (∀ e ∈ es, size e + 1 ≤ 2 * (toks e).length) →
+    sizeL es + 2 * es.length ≤ 2 * (toksSep es).length + 2
+  | [], _ => by simp [toksSep, sizeL]
+  | [e], h => by have := h e (by simp); simp [toksSep, sizeL]; omega
+  | e :: e2 :: es, h => by
+    have h1 := h e (by simp)
+    have h2 := len_sep (e2 :: es) (fun x hx => h x (by simp [hx]))
+    have : toksSep (e :: e2 :: es) = toks e ++ .comma :: toksSep (e2 :: es) := by simp [toksSep]
+    rw [this]
+    simp only [sizeL, List.length_cons, List.length_append] at h2 ⊢
+    omega
+
+theorem len_bar : ∀ es : List Ty, (∀ e ∈ es, size e + 1 ≤ 2 * (toks e).length) →
+    sizeL es + 2 * es.length ≤ 2 * (toksBar es).length + 2
+  | [], _ => by simp [toksBar, sizeL]
+  | [e], h => by have := h e (by simp); simp [toksBar, sizeL]; omega
+  | e :: e2 :: es, h => by
+    have h1 := h e (by simp)
+    have h2 := len_bar (e2 :: es) (fun x hx => h x (by simp [hx]))
+    have : toksBar (e :: e2 :: es) = toks e ++ .bar :: toksBar (e2 :: es) := by simp [toksBar]
+    rw [this]
+    simp only [sizeL, List.length_cons, List.length_append] at h2 ⊢
+    omega
+
+theorem len_fields : ∀ fs : List (String × Ty), (∀ p ∈ fs, size p.2 + 1 ≤ 2 * (toks p.2).length) →
+    sizeF fs ≤ 2 * (toksFields fs).length
+  | [], _ => by simp [toksFields, sizeF]
+  | [(k, t)], h => by have := h (k, t) (by simp); simp [toksFields, sizeF] at this ⊢; omega
+  | (k, t) :: p2 :: fs, h => by
+    have h1 := h (k, t) (by simp)
+    have h2 := len_fields (p2 :: fs) (fun x hx => h x (by simp [hx]))
+    have : toksFields ((k, t) :: p2 :: fs) = .word k :: .colon :: (toks t ++ .comma :: toksFields (p2 :: fs)) := by
+      simp [toksFields]
+    rw [this]
+    simp only [sizeF, List.length_cons, List.length_append] at h1 h2 ⊢
+    omega
+
+theorem len_ret (r : Ty) : (toks r).length ≤ (retToks r).length := by
+  unfold retToks
+  split <;> simp <;> omega
+
+/-- the printed token list is at least half as long as the type is big: the parser's fuel, taken from the number of
+    tokens, is enough -/
+theorem size_le_toks_aux : ∀ n : Nat, ∀ t : Ty, size t ≤ n → wf t = true → size t + 1 ≤ 2 * (toks t).length := by
+  intro n
+  induction n with
+  | zero => intro t h; have := size_pos t; omega
+  | succ n ih =>
+    intro t hs hw
+    cases t with
+    | fn ps r =>
+      simp only [size] at hs ⊢
+      simp only [wf, Bool.and_eq_true] at hw
+      have h1 := len_sep ps (fun x hx => ih x (by have := size_lt_sizeL hx; omega) (wfL_mem hw.1 hx))
+      have h2 := ih r (by omega) hw.2
+      have h3 := len_ret r
+      rw [toks_fn]
+      simp only [List.length_append, List.length_cons, List.length_nil]
+      omega
+    | arr e =>
+      simp only [size] at hs ⊢
+      simp only [wf] at hw
+      simp only [toks]
+      split
+      · rename_i hn
+        have := neverLike_wf e hw hn
+        subst this
+        simp [size]
+      · have := ih e (by omega) hw
+        simp only [List.length_append, List.length_cons, List.length_nil]
+        omega
+    | tup es =>
+      simp only [size] at hs ⊢
+      simp only [wf] at hw
+      have h1 := len_sep es (fun x hx => ih x (by have := size_lt_sizeL hx; omega) (wfL_mem hw hx))
+      simp only [toks, List.length_append, List.length_cons, List.length_nil]
+      omega
+    | multi ms =>
+      simp only [size] at hs ⊢
+      simp only [wf, Bool.and_eq_true, decide_eq_true_eq] at hw
+      have h1 := len_bar ms (fun x hx => ih x (by have := size_lt_sizeL hx; omega) (wfL_mem hw.1.1.2 hx))
+      simp only [toks]
+      omega
+    | cell e =>
+      simp only [size] at hs ⊢
+      simp only [wf] at hw
+      have h2 := ih e (by omega) hw
+      have h3 := len_ret e
+      rw [toks_cell]
+      simp only [List.length_append, List.length_cons, List.length_nil]
+      omega
+    | struct fs =>
+      simp only [size] at hs ⊢
+      simp only [wf, Bool.and_eq_true] at hw
+      have h1 := len_fields fs (fun p hp => ih p.2 (by have := size_lt_sizeF (k := p.1) (x := p.2) (fs := fs) hp; omega)
+        (wfF_mem hw.1 hp))
+      simp only [toks, List.length_append, List.length_cons, List.length_nil]
+      omega
+    | _ => simp [toks, size]
+
+theorem size_le_toks (t : Ty) (hw : wf t = true) : size t + 1 ≤ 2 * (toks t).length :=
+  size_le_toks_aux _ t (Nat.le_refl _) hw
+
+
+/-- **printing then parsing gives the type back, on text**: for every well-formed printable type whose struct keys are
+    identifiers, the parser (lexer included, with the fuel the model's `parse` takes from the token count) run on the
+    printed string returns exactly the type -/
+theorem roundtrip_text (t : Ty) (hw : wf t = true) (hp : printable t = true) (hk : identKeys t = true) :
+    parse (print t) = some t := by
+  unfold parse print
+  rw [lex_render (toks t) (adjOk_toks t) (wordsOk_toks t hk)]
+  have hsz := size_le_toks t hw
+  have := roundtrip_tokens t hw hp [] (by intro r h; cases h) (by intro r h; cases h)
+    (12 * (toks t).length + 2) (by omega)
+  simp only [List.append_nil] at this
+  simp [this]
+
+example : identKeys sampleTy = true := by
+  simp [sampleTy, identKeys, identKeysL, identKeysF]; decide
+
+example : parse (print sampleTy) = some sampleTy :=
+  roundtrip_text sampleTy (by simp [sampleTy, wf, wfL, wfF, membersOk, nodupL, nodupKeys, memL, eqv])
+    (by simp [sampleTy, printable, printableL, printableF, restricted])
+    (by simp [sampleTy, identKeys, identKeysL, identKeysF]; decide)
 
 end Ssl.C15
